@@ -20,7 +20,7 @@ def run(tier, seed):
     if not ok:
         rep.violation("build", {"what": "vrun does not build against /repo", "log": log[-3000:]}, found_input=False)
         core.proof_section(rep, pid); return rep.finish()
-    core.proof_section(rep, pid, trusted_extra=["theorems are about the conversion in ideal arithmetic; float slivers and the combined quantile accuracy are validated by this run's exact-rational oracle"])
+    core.proof_section(rep, pid, trusted_extra=["the conversion loop is written once over an abstract arithmetic (Sketch/ChangeMappingG.v): the conservation/support theorems are about its exact instance (proved equal to the ideal model), the sign/overlap theorems about its binary64 instance, which this run compares call by call with the implementation; the combined quantile accuracy is validated by this run's exact-rational oracle"])
     alphas = [0.01, 0.02, 0.05, 0.005, 0.1]
     specs = ["%s:a:%s" % (k, f2h(a)) for k in ("log", "lin", "cub") for a in alphas]
     facts = sketchcheck.learn_specs(pid, specs)
@@ -40,6 +40,8 @@ def run(tier, seed):
         b = Builder("m%d" % i); b.knew("s", s1, k1[0], k1[1], exact)
         for v in rand_values(rng, rng.choice([1, 3, 10, 40, 120]), -1, 2, zeros=0.1): b.kadd("s", v, rng.choice([None, None, None, 2.0, 0.5]))
         j0 = b.emit("kobs s")
+        # lockstep with the float-level model (Sketch/ChangeMappingG.v over the bit-exact mappings): every AddWithCount call the conversion makes
+        jt = b.emit("kchtrace s %s %s" % (s2, f2h(scale)))
         jr = b.emit("kchmap r s %s %s %s %s" % (s2, k2[0], k2[1], f2h(scale)), "ok")
         j1 = b.emit("kobs s", ("same", j0))
         jo = b.emit("kobs r")
@@ -59,8 +61,21 @@ def run(tier, seed):
         b.emit("kadd r %s" % f2h(11.0 * scale), "ok"); b.emit("kclear r", "ok")
         b.emit("kobs s", ("same", js0))
         if exact: b.emit("kstats s", ("same", jss0))
-        cases.append(b.case()); metas.append({"b": b, "s1": s1, "s2": s2, "scale": scale, "exact": exact, "j0": j0, "jr": jr, "jo": jo, "jq": jq, "qs": qs, "js": js, "identity": (s1 == s2 and scale == 1.0)})
+        cases.append(b.case()); metas.append({"b": b, "s1": s1, "s2": s2, "scale": scale, "exact": exact, "j0": j0, "jr": jr, "jt": jt, "jo": jo, "jq": jq, "qs": qs, "js": js, "identity": (s1 == s2 and scale == 1.0)})
     res = core.run_cases(pid, "conv", cases)
+    # correspondence: the call traces of implementation and model, compared as sorted multisets (printed so by both sides)
+    ntr = ncalls = ngive = 0; trace_bad = []
+    for (c, impl, sides, model), m in zip(res, metas):
+        a, bm = impl[m["jt"]], model[m["jt"]]
+        if bm == "unsupported" or bm.startswith("missing") or bm.startswith("model-"): ngive += 1; continue
+        ntr += 1; ncalls += a.count(":")
+        if a != bm: trace_bad.append((c, m, a, bm))
+    for c, m, a, bm in trace_bad[:5]:
+        ta, tb = set(a.replace("pos=", "").replace(" neg=", ",").split(",")), set(bm.replace("pos=", "").replace(" neg=", ",").split(","))
+        rep.violation("trace-%s" % c.name, {"clause": "the AddWithCount calls made by ChangeMapping differ from the float-level model's (implementation-only: %s; model-only: %s)" % (sorted(ta - tb)[:4], sorted(tb - ta)[:4]),
+                                             "kind": "correspondence", "script": core.instr_lines(m["b"].lines)[: m["jt"] + 1], "implementation": a[:2000], "model": bm[:2000], "from": m["s1"], "to": m["s2"], "scale": m["scale"],
+                                             "how_to_replay": "./check --replay <this file>"},
+                      found_input=any(x.split(":x")[1][0] in "89abcdef" for x in ta if ":x" in x))          # a negative weight among the implementation's calls is a failing input by itself
     # phase 2: lower bounds of every source / target bin involved
     cases2 = []
     for (c, impl, sides, model), m in zip(res, metas):
@@ -154,6 +169,6 @@ def run(tier, seed):
                                  "sources with positive, negative and zero values and dyadic weights, all source store kinds, sparse/paginated/dense targets (hash-map and paginated targets expose bins of negative weight), both variants; "
                                  "exact-rational oracle: mapping carried, source untouched, zero weight equal, |dW| <= 2^-40 W, no negative bin, every target bin overlaps a scaled source bin (implementation's own LowerBound), "
                                  "identity = exact copy, 11 quantiles within the combined accuracy of a source representative within one rank, statistics rescaled",
-                         "worst_relative_weight_drift": float(worst_dw)})
+                         "worst_relative_weight_drift": float(worst_dw), "traces_compared": ntr, "addwithcount_calls_compared": ncalls, "trace_mismatches": len(trace_bad), "model_gave_up": ngive})
     rep.assumptions = ["eps_fp = 1e-12; values well inside both mappings' ranges after scaling"]
     return rep.finish()
